@@ -186,14 +186,23 @@ Fixpoint write_uri (c : hcfg) (s : str) : str :=
       else content_unit c ch ++ write_uri c r
   end.
 
-(* FormatterToXML::writeNormalizedChars(.., isCData = false) *)
+(* FormatterToXML::writeNormalizedChars(.., isCData = false): a unit of the encoding goes out as it is - surrogates only
+   as a pair -, anything else as a reference; an unpaired surrogate is an error *)
 Fixpoint write_norm (c : hcfg) (s : str) : option str :=
   match s with
   | [] => Some []
   | ch :: r =>
       let general :=
           if ch =? 10 then opt_app newline (write_norm c r)
-          else if ch <=? maxc c then opt_app (content_unit c ch) (write_norm c r)
+          else if ch <=? maxc c then
+            if (55296 <=? ch) && (ch <? 57344) then
+              match r with
+              | [] => None
+              | next :: r' => if (ch <? 56320) && is_lowsur next
+                              then opt_app (content_unit c ch ++ content_unit c next) (write_norm c r') else None
+              end
+            else opt_app (content_unit c ch) (write_norm c r)
+          else if is_lowsur ch then None
           else if is_high ch then
             match r with
             | [] => None
@@ -230,6 +239,11 @@ Fixpoint ser_attrs (c : hcfg) (elem : str) (l : list (str * str)) : option str :
 
 Definition is_xml_ws (ch : N) : bool := mem ch [32; 9; 10; 13].
 
+(* the data of a processing instruction: through writeCharacters (the variant found first) or unit by unit through
+   accumContent (repaired); GenHtml.pi_data_is_escaped says which one /repo has *)
+Definition pi_data (escaped : bool) (c : hcfg) (d : str) : option str :=
+  if escaped then write_chars c d else Some (acc_content c d).
+
 (* writeParentTagEnd: the '>' of the parent's start tag, written when its first child arrives *)
 Definition pte (open : bool) : str := if open then [62] else [].
 
@@ -253,7 +267,7 @@ Fixpoint ser_node (c : hcfg) (top inscript raw open : bool) (n : hnode) : option
   | HPI t d =>
       match (match d with
              | [] => Some []
-             | d0 :: _ => opt_app (if is_xml_ws d0 then [] else [32]) (if pi_data_is_escaped then write_chars c d else Some (acc_content c d))
+             | d0 :: _ => opt_app (if is_xml_ws d0 then [] else [32]) (pi_data pi_data_is_escaped c d)
              end) with
       | Some o => Some (pte open ++ [60; 63] ++ acc_name c t ++ o ++ [62] ++ (if top then newline else []), false)
       | None => None
